@@ -49,6 +49,31 @@ CLAIMED = {
         note="The model of Start/Prop/End is functional; that End() does not alias the batch builder's array is C05's effect "
              "analysis and is exercised here by continuing the batch builder after End(). Defects D1, D2 were repaired (fix: commits).",
         ref="DESIGN.md §6 C16"),
+    "C07": dict(
+        technique="Coq proof of regular-language inclusion by a checked certificate: pattern derivatives x lexer finite control x shape observer",
+        text="C07_safe: every string accepted by the identifier pattern (re-read from /repo on every run and translated to a "
+             "regex AST over ASCII + Unicode minterms) - of any length - is lexed by the PostgreSQL lexer into exactly a dotted "
+             "path of identifier / quoted / U& tokens optionally ending in * (optional UESCAPE 'c' directly after a U& token), or "
+             "lies in one of three listed known-finding classes. Chain: matcher = language semantics (matches_iff_lang), "
+             "widening of {0,62} to * only enlarges the language, erasing the lexer's accumulators commutes with stepping "
+             "(erase_step: control never inspects accumulated text), product exploration gives a closed state set whose "
+             "certificate cert_ok is re-checked by vm_compute per run (223 states), cert_sound + pattern_safe lift it to all "
+             "strings. Tie: Go's regexp (verif hook) vs the model's matcher on every ASCII char and every boundary code point "
+             "of the Unicode classes in 17 position classes plus grammar-shaped and mutated candidates; every accepted string "
+             "is rendered and the emitted text lexed.",
+        note="Partial in one respect: the theorem represents each non-ASCII rune by one byte >= 0x80 (the lexer treats all such "
+             "bytes as identifier characters); the multi-byte encoding is exercised by the tests, its equivalence proof is "
+             "pending. standard_conforming_strings = on. Known findings D8 (two classes), D9. Trusted: translator (regexp/syntax "
+             "parse -> AST, minterm table), lexer formalisation.",
+        ref="DESIGN.md §6 C07"),
+    "C08": dict(
+        technique="Coq proof of regular-language inclusion by a checked certificate (same machinery as C07, type shape observer)",
+        text="C08_safe: every string accepted by the cast-type pattern lexes into an identifier path, optional ( digits ), "
+             "optional UESCAPE 'c' after a U& token and optional [ digits? ] groups - no operator, literal, comment, further "
+             "cast or separator - or lies in a listed known-finding class; certificate with 280 product states re-checked per "
+             "run. Tie as C07 with x.Cast(s).",
+        note="As C07.",
+        ref="DESIGN.md §6 C08"),
     "C09": dict(
         technique="Coq proof (exact error list and validated output of a validating run, for every writer tree / value) + independent traversal of dumped values",
         text="C09_exact / C09_reports / C09_only_if / C09_not_emitted: for every value, the validating rendering's error list is "
@@ -162,7 +187,7 @@ manifest = {
         "guard": "verif",
         "enable": "go build -tags verif (the harness under /verif/go is built with the tag against /repo)",
         "baseline_off_cmd": "./check baseline-off",
-        "source_commits": [],
+        "source_commits": ["b40f3cc verif hooks: accessors for the two validation patterns (build tag verif)"],
         "add_only": True,
     },
     "engines": [
